@@ -93,7 +93,8 @@ def mon_no_active(run):
 # ------------------------------------------------------------------ C02
 def mon_stuck(run):
     if run.stuck and run.result is None:
-        return [(sig(run, kind="stuck"), {"queues": run.summary["queues"], "dead": run.summary["dead"],
+        return [(sig(run, kind="stuck", disagree=run.collections_disagree()),
+                 {"queues": run.summary["queues"], "dead": run.summary["dead"],
                                            "exited": run.summary["exited"]})]
     return []
 
@@ -299,21 +300,33 @@ def mon_each(run):
 
 # ------------------------------------------------------------------ C09
 def mon_agreed_collection(run):
+    """tests are dispatched by index: every worker that is sent tests must have reported a
+    collection first, and all workers that are sent tests must have collected the same list"""
     out = []
-    ref = run.cfg["coll"]
     reported = set()
+    got_tests = []
     for k, o in run.outs:
         if o[0] == "collfinished":
             reported.add(o[1])
         elif o[0] == "send" and o[2][0] in ("run", "runall"):
             n = o[1]
-            if run.mode != "each" and run.coll[n] != ref:
-                out.append((sig(run, kind="tests-sent-to-disagreeing-worker"), {"worker": n, "cmd": o[2]}))
+            if n not in got_tests:
+                got_tests.append(n)
             if n not in reported:
                 out.append((sig(run, kind="tests-sent-before-collection-reported"), {"worker": n, "cmd": o[2], "step": k}))
-    for n, ran in run.ran.items():
-        if ran and run.mode != "each" and run.coll[n] != ref:
-            out.append((sig(run, kind="disagreeing-worker-ran-tests"), {"worker": n, "ran": ran[:5]}))
+    if run.mode != "each" and got_tests:
+        ref = run.coll[got_tests[0]]
+        for n in got_tests[1:]:
+            if run.coll[n] != ref:
+                out.append((sig(run, kind="tests-sent-to-disagreeing-worker"),
+                            {"worker": n, "reference_worker": got_tests[0]}))
+    # initial disagreement: one failed collect report per disagreeing worker, nothing dispatched
+    diffs = [o for _k, o in run.outs if o[0] == "colldiff"]
+    if diffs and run.mode != "each" and got_tests:
+        first_diff = min(k for k, o in run.outs if o[0] == "colldiff")
+        late = [o for k, o in run.outs if k >= first_diff and o[0] == "send" and o[2][0] in ("run", "runall")]
+        if late:
+            out.append((sig(run, kind="dispatch-despite-initial-disagreement"), {"cmds": late[:3]}))
     return out
 
 
@@ -356,6 +369,11 @@ def mon_stop(run):
     else:
         if run.result == ["interrupted"]:
             out.append((sig(run, kind="interrupted-without-stop-condition"), {}))
+    # a worker that ended with a stop / fail-fast request, once the controller has handled its exit
+    stoppers = {n for _k, n, ev in run.wevs if ev[0] == "workerfinished" and ev[1] == 1}
+    handled = {ev[1] for ev in run.ctl_events.values() if ev and ev[0] == "workerfinished"}
+    if (stoppers & handled) and run.result == ["finished"]:
+        out.append((sig(run, kind="worker-stop-request-ignored"), {"workers": sorted(stoppers & handled)}))
     # the stop decision itself: maxfail failed reports, or a worker finishing with a stop request
     maxfail = run.cfg["maxfail"]
     failed = 0
